@@ -166,7 +166,9 @@ def uniform_case(draw):
     d = len(P[0])
     dirs = draw(gens.array((4, d), -1.0, 1.0, styles=("raw",)))
     ws = draw(gens.array((4, len(P)), 0.05, 1.0, styles=("raw",)))
-    return dict(P=P, dirs=dirs, ws=ws, seed=draw(gens.seed_value()), n=20000)
+    # the requested count varies (uniformity holds for any count; a size-dependent fast path must be as uniform as the
+    # ordinary one - added after seeded change S-C13-11, which switched the weight draw above n = 20000)
+    return dict(P=P, dirs=dirs, ws=ws, seed=draw(gens.seed_value()), n=draw(st.sampled_from([20000, 20000, 8000, 20001, 32768, 50000])))
 
 
 def body_uniform(case):
@@ -175,13 +177,13 @@ def body_uniform(case):
     n = case["n"]
     if np.linalg.matrix_rank(P[1:] - P[0], tol=1e-9 * max(1.0, float(np.max(np.abs(P))))) < P.shape[1]:
         return ["flat-cloud-skipped"]            # the property is about full-dimensional hulls (2-4 dimensions)
-    with calling("sample_in_hull(n=20000)"):
+    with calling(f"sample_in_hull(n={n})"):
         X = np.asarray(dreye.sample_in_hull(P, n, seed=case["seed"]))
     check(X.shape == (n, P.shape[1]), "uniform:shape", f"{X.shape}")
     # normalise the cloud for the geometry (affine maps preserve uniformity and volume ratios)
     mu, sd = P.mean(0), P.std(0) + 1e-300
     Pn, Xn = (P - mu) / sd, (X - mu) / sd
-    labs = [f"d{P.shape[1]}"]
+    labs = [f"d{P.shape[1]}", "n<=20000" if n <= 20000 else "n>20000"]
     tested = 0
     for u, w in zip(np.asarray(case["dirs"], dtype=float), np.asarray(case["ws"], dtype=float)):
         if np.linalg.norm(u) < 1e-3:
